@@ -15,6 +15,7 @@ is searched for by the `-race` stress of the thorough tier.
 import Restful.Model.Conc
 import Restful.Gen.Facts
 import Restful.Lemmas.Lockset
+import Restful.Lemmas.StateShape
 namespace Restful
 namespace Props
 open Gen Conc
@@ -42,6 +43,12 @@ theorem C12_lock_order_acyclic : acyclic c12.report.orderEdges = true := by deci
 /-! The general theorems about the interleaving semantics (Lemmas/Lockset.lean) are audited with this property: -/
 -- also: Restful.Lockset.lockset_sound
 -- also: Restful.Lockset.no_deadlock
+
+/-! The frame condition (Lemmas/StateShape.lean): the code has exactly the state this property's model
+    accounts for — no further package-level variable, struct type or field; constants as modelled. -/
+-- also: Restful.StateShape.globals_shape
+-- also: Restful.StateShape.consts_shape
+-- also: Restful.StateShape.container_shape
 
 end Props
 end Restful
